@@ -221,68 +221,88 @@ def parse_assumptions(output, printed):
     return res
 
 
+def _props_files(prop):
+    pf = prop.props_file
+    return list(pf) if isinstance(pf, (list, tuple)) else [pf]
+
+
 def build_obligations(prop, thorough=False):
-    """full .vo build of the closure of the property file; returns a dict describing what was discharged"""
+    """full .vo build of the closure of the property file(s); returns a dict describing what was discharged"""
     t0 = time.time()
-    info = {"obligations": [], "discharged": [], "failed": [], "axioms": {}, "hygiene": [], "log_tail": ""}
-    props_path = os.path.join(COQ, prop.props_file)
-    names, printed = theorem_names(props_path)
-    info["obligations"] = names
+    info = {"obligations": [], "discharged": [], "failed": [], "axioms": {}, "hygiene": [], "log_tail": "", "checker_cmd": ""}
+    files = _props_files(prop)
+    per_file = []
+    for pf in files:
+        props_path = os.path.join(COQ, pf)
+        names, printed = theorem_names(props_path)
+        per_file.append((pf, props_path, names, printed))
+        info["obligations"] += names
     # hygiene
     for f in coq_sources():
         txt = re.sub(r"\(\*.*?\*\)", "", open(f).read(), flags=re.S)
         for m in HYGIENE.finditer(txt):
             info["hygiene"].append(f"{os.path.relpath(f, COQ)}: {m.group(0)}")
-    vo = props_path[:-2] + ".vo"
-    target = os.path.relpath(vo, COQ)
     with Lock("coq.lock"):
         try:
             prop.pre_build()
         except Exception as e:  # translator failed closed
-            info["failed"] = names
+            info["failed"] = list(info["obligations"])
             info["log_tail"] = "pre_build (translator) failed: " + "".join(traceback.format_exception_only(type(e), e))
             info["wall_s"] = time.time() - t0
             return info
         regen_coqproject()
-        if os.path.exists(vo):
-            os.remove(vo)
         extra_targets = []
         for l in prop.coq_imports:
             m = re.match(r"\s*From\s+ONL\s+Require\s+(?:Import|Export)\s+(.*?)\.\s*$", l)
             if m:
                 extra_targets += [x.replace(".", "/") + ".vo" for x in m.group(1).split()]
-        cmd = ["make", "-j16", target] + extra_targets
-        rc, out = sh(cmd, 1500, cwd=COQ)
-        info["checker_cmd"] = f"cd {COQ} && coq_makefile -f _CoqProject -o Makefile && " + " ".join(cmd) + \
-            "   (coqc 8.16.1, full .vo build; Print Assumptions under every theorem of " + prop.props_file + ")"
-        if thorough and rc == 0:
-            rc2, out2 = sh(["coqchk", "-silent", "-o", "-Q", ".", "ONL", "ONL." + target[:-3].replace("/", ".")], 1500, cwd=COQ)
-            info["coqchk_rc"] = rc2
-            info["coqchk_tail"] = out2[-3000:]
-            if rc2 != 0:
-                rc = rc2
-                out += "\ncoqchk failed:\n" + out2[-3000:]
-    info["log_tail"] = out[-4000:]
-    if rc != 0:
-        # which theorem broke?  Everything in the file is undischarged; name the failing file/lemma
-        info["failed"] = names
-        m = re.search(r'File "\./([^"]+)", line (\d+)', out)
-        if m:
-            info["broken_at"] = f"{m.group(1)}:{m.group(2)}"
-    else:
-        ax = parse_assumptions(out, printed)
-        info["axioms"] = ax
-        for n in names:
-            if n not in printed or n not in ax:
-                info["failed"].append(n)
+        rc, out = sh(["make", "-j16"] + extra_targets, 1500, cwd=COQ) if extra_targets else (0, "")
+        if rc != 0:
+            info["failed"] = list(info["obligations"])
+            info["log_tail"] = out[-4000:]
+            m = re.search(r'File "\./([^"]+)", line (\d+)', out)
+            if m:
+                info["broken_at"] = f"{m.group(1)}:{m.group(2)}"
+        for (pf, props_path, names, printed) in per_file:
+            if rc != 0:
+                break
+            vo = props_path[:-2] + ".vo"
+            target = os.path.relpath(vo, COQ)
+            if os.path.exists(vo):
+                os.remove(vo)
+            cmd = ["make", "-j16", target]
+            rc1, out1 = sh(cmd, 1500, cwd=COQ)
+            info["log_tail"] = (info["log_tail"] + out1)[-4000:]
+            if thorough and rc1 == 0:
+                rc2, out2 = sh(["coqchk", "-silent", "-o", "-Q", ".", "ONL", "ONL." + target[:-3].replace("/", ".")], 1500, cwd=COQ)
+                info["coqchk_rc"] = max(rc2, info.get("coqchk_rc", 0))
+                info["coqchk_tail"] = out2[-3000:]
+                if rc2 != 0:
+                    rc1 = rc2
+                    info["log_tail"] += "\ncoqchk failed:\n" + out2[-3000:]
+            if rc1 != 0:
+                info["failed"] += names
+                m = re.search(r'File "\./([^"]+)", line (\d+)', out1)
+                if m:
+                    info["broken_at"] = f"{m.group(1)}:{m.group(2)}"
                 continue
-            bad = [a for a in ax[n] if a not in STDLIB_AXIOMS_ALLOWED and a not in prop.allowed_axioms]
-            if bad:
-                info["failed"].append(n)
-            else:
-                info["discharged"].append(n)
+            ax = parse_assumptions(out1, printed)
+            info["axioms"].update(ax)
+            for n in names:
+                if n not in printed or n not in ax:
+                    info["failed"].append(n)
+                    continue
+                bad = [a for a in ax[n] if a not in STDLIB_AXIOMS_ALLOWED and a not in prop.allowed_axioms]
+                if bad:
+                    info["failed"].append(n)
+                else:
+                    info["discharged"].append(n)
+        info["checker_cmd"] = (f"cd {COQ} && coq_makefile -f _CoqProject -o Makefile && make -j16 " +
+                               " ".join(f[:-2] + ".vo" for f in files) +
+                               "   (coqc 8.16.1, full .vo build of the closure; Print Assumptions under every theorem" +
+                               ("; coqchk -o on the closure" if thorough else "") + ")")
     if info["hygiene"]:
-        info["failed"] = names
+        info["failed"] = list(info["obligations"])
         info["discharged"] = []
     info["wall_s"] = round(time.time() - t0, 2)
     return info
@@ -541,7 +561,7 @@ def check(prop, args, workdir, t0):
             skipped += 1
         else:
             items.append((i, t))
-    if args.no_build and not os.path.exists(os.path.join(COQ, prop.props_file[:-2] + ".vo")):
+    if args.no_build and not os.path.exists(os.path.join(COQ, _props_files(prop)[0][:-2] + ".vo")):
         bad, cerrors = set(), ["model not built"]
     else:
         bad, cerrors = eval_agree(prop, items, workdir) if items else (set(), [])
